@@ -122,7 +122,9 @@ impl SendWindow {
     /// the window is considered also full at level = 1 if the receiving window does not have
     /// a pending ACK.
     fn is_full(&self, recv_window: &RecvWindow) -> bool {
-        self.level == 0 || self.level == 1 && recv_window.ack_level == 0
+        // NOTE: `pending_ack()` rather than `ack_level`: while a complete message waits to be
+        // fetched the ACK is withheld, and the last slot must not go to a segment without an ACK
+        self.level == 0 || self.level == 1 && recv_window.pending_ack().is_none()
     }
 
     /// Return the next sequence to be used when sending a BTP segment.
